@@ -69,6 +69,17 @@ def cases(tier, rng):
             log(f"C18: generator of {modname} unavailable: {e}"); lines = []
         for line in rng.sample(lines, min(per, len(lines))):
             yield Case(line, tag="scenario-" + line.lstrip("!").split(" ", 1)[0])
+    # parsed values of a record depend on that record's bytes only: frames that store one / none of the two optional byte pairs,
+    # each preceded by a frame that stores both with non-zero bytes (a value left unassigned shows as the neighbour's or as garbage)
+    from . import prtref as P
+    for g in range(6 if thorough else 3):
+        frames = []
+        for j in range(8):
+            flag, uflag = [(1, 1), (1, 0), (1, 1), (0, 1), (1, 1), (0, 0), (0, 1), (1, 0)][(j + g) % 8]
+            frames.append(P.Frame(0, flag, rng.randrange(0, 128), uflag, tuple(rng.randrange(1, 256) for _ in range(4)), []))
+        art = P.Art([], [], [P.Anim(tuple(rng.randrange(1 << 32) for _ in range(8)), frames[:4], []), P.Anim((0,) * 8, frames[4:], [])], 0)
+        b = P.encode(art)
+        yield Case(f"prt.read {hexs(b)}", expect=f"ok {len(b)} {P.show_text(P.dump_text(art))}", tag="optional-pairs-mixed")
     for b in (0, 255, 165, 171, 1):
         yield Case(f"layout.poison {b}", tag="poisoned-construction", nomodel=True)
     yield Case("map.default", tag="default-object")
